@@ -70,6 +70,9 @@ class Gen:
                 if rnd.random() < 0.3:
                     self.nrefnames = getattr(self, "nrefnames", 0) + 1
                     name = "n%d" % self.nrefnames
+                    if self.for_clean and self.nrefnames <= 3 and rnd.random() < 0.3:
+                        # names that differ only in letter case are different references
+                        name = ("Smith", "smith", "SMITH")[self.nrefnames - 1]
                     use_first = rnd.random() < 0.4
                     if use_first:
                         out.append(("refuse", name))
@@ -148,6 +151,12 @@ class Gen:
 
     def dlist(self):
         items = []
+        if self.for_clean and self.rnd.random() < 0.15:
+            # a glossary whose answers repeat ("yes", "no"): entries that look alike are still separate entries
+            for _ in range(self.rnd.randint(3, 6)):
+                ans = self.rnd.choice(("yes", "no", "yes"))
+                items.append(([self.word()] if self.rnd.random() < 0.7 else [("w", "same")], [[("w", ans)]]))
+            return ("dlist", items)
         for _ in range(self.rnd.randint(1, 3)):
             term = self.inline(0, False, False, 0, 2)
             descs = [self.inline(0, False, True, 0, 3) for _ in range(self.rnd.randint(1, 2))]
